@@ -122,10 +122,8 @@ func (view *View) group(ctx context.Context, scope *ReferenceScope, items []pars
 
 	var grpFn = func(thIdx int) {
 		defer func() {
-			if !gm.HasError() {
-				if panicReport := recover(); panicReport != nil {
-					gm.SetError(NewFatalError(panicReport))
-				}
+			if panicReport := recover(); panicReport != nil {
+				gm.SetError(NewFatalError(panicReport))
 			}
 
 			if 1 < gm.Number {
